@@ -363,6 +363,50 @@ CLAIMED["C18"] = (
     "Lean 4 proof (table-index safety by decide over translated C tables; reference ledger) + refcount correspondence; sanitizer runs as failing-input search",
     "DESIGN.md §5 C18, §10.2")
 
+
+# Session 3: deep-embedding source ties added to clusters whose tie had been the correspondence only.
+# property -> (sentence appended to the level text, technique)
+SOURCE_TIES = {
+    "C17": ("SOURCE TIE (session 3): the source text of _adapt, _get_applicable_offers, the edge comparator, provides_protocol and "
+            "mro_distance_to_protocol is translated on every run (harness/translate/pyadapt.py -> Generated/AdaptProg.lean, language "
+            "Model/PyA.lean) and the model's search is proved equal to its interpretation for every registry, factory table, adaptee type "
+            "and target (C17_search_is_source; C17_source_complete, C17_source_sound_minimal state completeness, soundness and "
+            "minimality of the interpreted source).",
+            "Lean 4 proof (soundness, completeness, minimality of the queue search) over a model proved equal to the interpretation of "
+            "the translated source, with model-code correspondence against brute force"),
+    "C20": ("SOURCE TIE (session 3): the source text of _sync_trait_modified and _sync_trait_items_modified is translated on every run "
+            "(harness/translate/syncprog.py -> Generated/SyncProg.lean, language Model/PyLSync.lean); C20_handlers_are_source, "
+            "C20_step_is_source and C20_model_is_source prove the model's handlers and cascade equal to the interpretation, incl. a "
+            "partner dying during a propagation (F97/F97b found by that stream, repaired in /repo 8e10b05). sync_trait itself is "
+            "tied by correspondence.",
+            "Lean 4 proof (lock invariant and convergence by induction over histories, on top of C05's replay law) over handlers proved "
+            "equal to the interpretation of the translated source, with model-code correspondence"),
+    "C02": ("SOURCE TIE (session 3): the C source of setattr_event, getattr_trait, has_notifiers, has_traits_getattro/setattro and "
+            "(on its silent paths) setattr_trait is translated on every run (harness/translate/cattr.py -> Generated/AttrProg.lean, "
+            "language Model/MiniC.lean) and the model functions are proved equal to the interpretation (C02_*_is_source); the rest of "
+            "setattr_trait and call_notifiers are pinned by a digest tripwire (C02_skeleton_pinned), which is not a proof.",
+            "Lean 4 proof (handler logs = specification filter of the history) over model functions proved equal to the interpretation of "
+            "the translated C source where stated, with translated constants and model-code correspondence"),
+    "C10": ("SOURCE TIE (session 3): the C source of default_value_for (all 11 kinds) and getattr_trait is translated on every run "
+            "(cattr / MiniC) and the model is proved equal to the interpretation (C10_default_is_source, C10_getattr_is_source).",
+            "Lean 4 proof (non-interference and once-only by induction over histories) over model functions proved equal to the "
+            "interpretation of the translated C source, with translated constants and twin-run correspondence"),
+    "C11": ("SOURCE TIE (session 3): the C source of delegate_attr_name_*, getattr_delegate and setattr_delegate (loop by induction) and "
+            "the Python source of Delegate.__init__, get_delegate_pattern, _trait_delegate_name and _remove_trait_delegate_listener are "
+            "translated on every run (harness/translate/delegsrc.py -> Generated/DelegSrc.lean, Model/DelegSrc.lean) and the model's "
+            "attrName / read / setDefer / step / mkDelegate / listenedName / unlink / relink are proved equal to the interpretation "
+            "(C11_*_is_source).",
+            "Lean 4 proof (Effect relation, invariants over histories) over model functions proved equal to the interpretation of the "
+            "translated source, with model-code correspondence"),
+    "C16": ("SOURCE TIE (session 3): the source of ListenerItem.register / unregister, _register_simple / _list (= _set) / _dict and the "
+            "five re-registration handle_* methods is translated on every run (harness/translate/legacysrc.py -> "
+            "Generated/LegacyProg.lean, language Model/LisL.lean); C16_register_is_source, C16_handle_is_source and the handler / guard / "
+            "deferred / dst tables prove the model equal to the interpretation; Set links and mutations of detached containers are in "
+            "the model. ListenerParser and ListenerGroup are tied by correspondence.",
+            "Lean 4 proof (active sets = reachability on tree-shaped heaps, by induction) over a model proved equal to the interpretation "
+            "of the translated source, with differential correspondence of the two real APIs"),
+}
+
 NOT_YET = "check not built yet in this round (planned in DESIGN.md §9); not claimed until it exists"
 
 
@@ -372,6 +416,8 @@ def main():
         if p not in CLAIMED:
             continue
         text, note, tech, ref = CLAIMED[p]
+        if p in SOURCE_TIES:
+            text, tech = text + " " + SOURCE_TIES[p][0], SOURCE_TIES[p][1]
         checks.append({
             "property_id": p,
             "quick_cmd": "/venv/bin/python harness/vcheck.py %s --tier quick" % p,
